@@ -964,516 +964,522 @@ def run(repo, chk):
         raise ExtractError("update_model_for_isolated_junctions_and_links: expected (model, wn, updater, previous junctions, previous links, new junctions, new links), found %s" % uparams)
 
     # ---------------------------------------------------------------- scenarios: R-C09-1 graph encoding, R-C09-2 caller, R-C09-3 flag life cycle
-    captured = []          # valid snapshots, reused as a graph family for the C++ search
-    used_keys = set()
+    with chk.part("scenarios: R-C09-1 graph encoding, R-C09-2 caller, R-C09-3 flag life cycle"):
+        captured = []          # valid snapshots, reused as a graph family for the C++ search
+        used_keys = set()
 
-    def scenario(label, stale, debug):
-        """one simulator on the scenario network: initialise, search, then two rounds of (status changes, update, search)"""
-        wn = MockWN(LS, NODES, LINKS)
-        if stale:
-            # flags left over from an earlier (paused) simulation must not influence the graph
-            for k in ("P5", "P1", "PU2", "V1"):
-                wn.get_link(k)._is_isolated = True
-            for k in ("J4", "J1"):
-                wn.get_node(k)._is_isolated = True
-        cap = Capture(arrays)
-        model_calls = []
+        def scenario(label, stale, debug):
+            """one simulator on the scenario network: initialise, search, then two rounds of (status changes, update, search)"""
+            wn = MockWN(LS, NODES, LINKS)
+            if stale:
+                # flags left over from an earlier (paused) simulation must not influence the graph
+                for k in ("P5", "P1", "PU2", "V1"):
+                    wn.get_link(k)._is_isolated = True
+                for k in ("J4", "J1"):
+                    wn.get_node(k)._is_isolated = True
+            cap = Capture(arrays)
+            model_calls = []
 
-        def model_update(*args, **kwargs):
-            # bound by the signature of the real function, so positional and keyword calls are the same thing
-            if len(args) > len(uparams) or any(k not in uparams for k in kwargs) or any(k in uparams[:len(args)] for k in kwargs):
-                raise ProgramError(TypeError("update_model_for_isolated_junctions_and_links() called with %d positional and keywords %s; parameters are %s" % (len(args), sorted(kwargs), uparams)))
-            bound = dict(zip(uparams, args))
-            bound.update(kwargs)
-            if len(bound) != len(uparams):
-                raise ProgramError(TypeError("update_model_for_isolated_junctions_and_links() missing arguments %s" % [p_ for p_ in uparams if p_ not in bound]))
-            model_calls.append(([bound[p_] for p_ in uparams], {k: v._is_isolated for k, v in wn.nodes.items()}, {k: v._is_isolated for k, v in wn.links.items()}))
-        world, state = make_world(repo, LS, {
-            "wntr.sim.network_isolation.check_for_isolated_junctions": cap,
-            "wntr.sim.network_isolation.network_isolation.check_for_isolated_junctions": cap,
-            "wntr.sim.hydraulics.update_model_for_isolated_junctions_and_links": model_update})
-        state["log_level"] = 10 if debug else 30
-        it = world.interp
-        where = "construction"
-        try:
-            sim = world.function(CORE, "WNTRSimulator")(wn)
-        except ProgramError as e:
-            raise ExtractError("WNTRSimulator(wn) raises on the mock network: %s (line %s)" % (e, e.lineno))
-        if not isinstance(sim, Instance):
-            raise ExtractError("WNTRSimulator is not a class of %s" % CORE)
-        n2i = name_id_map(sim, wn)
-        i2n = {i: k for k, i in n2i.items()}
-        trackers = [v for v in attr_values(sim) if isinstance(v, MTracker)]
-        if len(trackers) != 1:
-            raise ExtractError("WNTRSimulator: expected exactly one ControlChangeTracker attribute after construction, found %d" % len(trackers))
-        tracker = trackers[0]
-        prev = ([], [])
-        rounds = ROUNDS + (_generated_rounds() if not stale else [])
-        steps = ["initialisation"] + ["update after round %d of status changes%s" % (k + 1, "" if k < len(ROUNDS) else " (%s)" % ", ".join(r_[0] for r_ in rounds[k]))
-                                      for k in range(len(rounds))] + ["rebuild on the used simulator after statuses were changed outside any run"]
-        last = len(steps) - 1
-        for step, what in enumerate(steps):
-            tag = "%s, %s" % (label, what)
-            fails = None
-            rule_g = "R-C09-6" if step == last else "R-C09-1"
+            def model_update(*args, **kwargs):
+                # bound by the signature of the real function, so positional and keyword calls are the same thing
+                if len(args) > len(uparams) or any(k not in uparams for k in kwargs) or any(k in uparams[:len(args)] for k in kwargs):
+                    raise ProgramError(TypeError("update_model_for_isolated_junctions_and_links() called with %d positional and keywords %s; parameters are %s" % (len(args), sorted(kwargs), uparams)))
+                bound = dict(zip(uparams, args))
+                bound.update(kwargs)
+                if len(bound) != len(uparams):
+                    raise ProgramError(TypeError("update_model_for_isolated_junctions_and_links() missing arguments %s" % [p_ for p_ in uparams if p_ not in bound]))
+                model_calls.append(([bound[p_] for p_ in uparams], {k: v._is_isolated for k, v in wn.nodes.items()}, {k: v._is_isolated for k, v in wn.links.items()}))
+            world, state = make_world(repo, LS, {
+                "wntr.sim.network_isolation.check_for_isolated_junctions": cap,
+                "wntr.sim.network_isolation.network_isolation.check_for_isolated_junctions": cap,
+                "wntr.sim.hydraulics.update_model_for_isolated_junctions_and_links": model_update})
+            state["log_level"] = 10 if debug else 30
+            it = world.interp
+            where = "construction"
             try:
-                if step == 0:
-                    where = "_initialize_internal_graph"
-                    it.getattr_(sim, "_initialize_internal_graph")()
-                    for k in ("graph", "model"):
-                        tracker.set_reference_point(k)
-                elif step == last:
-                    # what run_sim finds when the simulator object is used again (reset_initial_values, an edit while paused): the statuses differ
-                    # from those the graph was left with and no control action told the change tracker
-                    for lk, kind, a_, b_, st, variant in LINKS:
-                        wn.get_link(lk).set_effective(getattr(LS, st), variant)
-                    for lk, st, variant in RESET_EDITS:
-                        wn.get_link(lk).set_effective(getattr(LS, st), variant)
-                    where = "_initialize_internal_graph"
-                    it.getattr_(sim, "_initialize_internal_graph")()
-                    for k in ("graph", "model"):
-                        tracker.reset_reference_point(k)
-                else:
-                    for lk, st, variant in rounds[step - 1]:
-                        l = wn.get_link(lk)
-                        if st == "toggle":
-                            st = ("Active" if isinstance(l, MValve) else "Open") if l.status == LS.Closed else "Closed"
-                        l.set_effective(getattr(LS, st), variant)
-                        tracker.record(l, "status")
-                    for nm, attr in OTHER_CHANGES:
-                        tracker.record(wn.get_link(nm) if nm in wn.links else wn.get_node(nm), attr)
-                    tracker.used, tracker.resets = [], []
-                    where = "_update_internal_graph"
-                    it.getattr_(sim, "_update_internal_graph")()
-                    used_keys.update(tracker.used)
-                    pending = [k for k in tracker.used if tracker._pending(k)]
-                    chk.expect(not pending and (not tracker.used or set(tracker.used) <= set(tracker.resets)), "R-C09-1",
-                               "[%s] the update consumes the changes since its reference point and resets that reference point" % tag, loc(ug),
-                               "a reference point that is not reset makes every later update re-apply old changes and lets update_model/ controls see stale ones",
-                               expected="every reference point read is reset", found="read %s, reset %s, still pending %s" % (tracker.used, tracker.resets, pending))
-                ncalls = len(cap.calls)
-                nmodel = len(model_calls)
-                where = "_get_isolated_junctions_and_links"
-                it.getattr_(sim, "_get_isolated_junctions_and_links")()
+                sim = world.function(CORE, "WNTRSimulator")(wn)
             except ProgramError as e:
-                fails = "%s raises %s at line %s" % (where, e, e.lineno)
-            rule = "R-C09-3" if where == "_get_isolated_junctions_and_links" and fails else rule_g
-            if fails:
-                chk.bad(rule, "[%s] %s runs on the scenario network" % (tag, where), loc(meths[where]) if where in meths else CORE,
-                        "the scenario has parallel links in both orientations, closed links, pumps, valves, an unlinked junction as last node, and changes of "
-                        "attributes other than the status of links in the change tracker", found=fails)
-                return
-            # ---- the arrays handed to the search
-            new = cap.calls[ncalls:]
-            chk.expect(len(new) == 1, "R-C09-2", "[%s] the search is invoked once per call of _get_isolated_junctions_and_links" % tag, loc(gi), found=len(new))
-            if len(new) != 1:
-                return
-            rec = new[0]
-            chk.expect(rec["valid"] is None, "R-C09-2",
-                       "[%s] the Python caller passes sources, indicator, indptr, indices, data, num_connections in the order of the C signature" % tag, loc(gi),
-                       "the arrays are bound positionally to %s" % arrays, found=rec["valid"])
-            if rec["valid"] is not None:
-                return
-            snap = rec["snap"]
-            chk.expect(snap["node_indicator"] == [1] * len(n2i), "R-C09-2", "[%s] every node starts as not reached (indicator 1, one entry per node)" % tag, loc(gi),
-                       found=snap["node_indicator"])
-            captured.append(snap)
-            gf = graph_facts(wn, n2i, snap)
-            texts = [("single", "a node pair joined by one link (pipe, pump or valve) is connected, in both directions, iff that link's status is not Closed"),
-                     ("same", "a node pair joined by several links drawn the same way is connected iff any of them is not Closed"),
-                     ("opposite", "a node pair joined by links drawn in opposite directions is connected iff any of them is not Closed"),
-                     ("rows", "the graph has one row per node and num_connections holds the row lengths"),
-                     ("sources", "the sources of the search are all tanks and all reservoirs"),
-                     ("spurious", "only node pairs joined by a link are connected")]
-            for cat, text in texts:
-                chk.expect(not gf[cat], rule_g, "[%s] %s" % (tag, text), loc(ig if step in (0, last) else ug),
-                           "the search follows an entry iff it is 1: a non-closed link must give 1 whatever else is true of it (stale _is_isolated flag, initial_status, "
-                           "_user_status/_internal_status representation), a closed one 0 unless a parallel link is open", found="; ".join(gf[cat][:4]) or None)
-            # ---- flag life cycle, judged against the indicator the search left behind
-            iso_ids = [i for i, v in enumerate(rec["after"]) if v == 1]
-            exp_j = [i2n[i] for i in iso_ids]
-            exp_l = [k for k, l in wn.links.items() if l.start_node_name in exp_j or l.end_node_name in exp_j]
-            fj = [k for k, v in wn.nodes.items() if v._is_isolated]
-            fl = [k for k, v in wn.links.items() if v._is_isolated]
-            if not stale:
-                chk.expect(not (set(fj) - set(exp_j)) and not (set(fl) - set(exp_l)), "R-C09-3",
-                           "[%s] every flag set by the previous search (junctions and links) is cleared when the element is reachable again" % tag, loc(gi),
-                           found="still flagged: %s %s" % (sorted(set(fj) - set(exp_j)), sorted(set(fl) - set(exp_l))))
-            chk.expect(set(exp_j) <= set(fj), "R-C09-3", "[%s] every node whose indicator is still 1 after the search is flagged isolated" % tag, loc(gi),
-                       found="not flagged: %s" % sorted(set(exp_j) - set(fj)))
-            chk.expect(set(exp_l) <= set(fl), "R-C09-3", "[%s] every link attached to an isolated junction (inlet or outlet) is flagged isolated" % tag, loc(gi),
-                       found="not flagged: %s" % sorted(set(exp_l) - set(fl)))
-            mc = model_calls[nmodel:]
-            ok_model = len(mc) == 1
-            found = "%d calls" % len(mc)
-            if ok_model:
-                a = mc[0][0]
-                last4 = [sorted(x) if isinstance(x, (OrderedSet, set, list, tuple, frozenset)) else x for x in a[-4:]]
-                want4 = [sorted(prev[0]), sorted(prev[1]), sorted(exp_j), sorted(exp_l)]
-                flags_final = (not stale and sorted(k for k, v in mc[0][1].items() if v) == sorted(exp_j) and sorted(k for k, v in mc[0][2].items() if v) == sorted(exp_l)) or \
-                    (stale and set(exp_j) <= {k for k, v in mc[0][1].items() if v} and set(exp_l) <= {k for k, v in mc[0][2].items() if v})
-                ok_model = last4 == want4 and flags_final and any(x is wn for x in a[:-4])
-                found = "sets %s; flags final at the call: %s" % (last4, flags_final)
-            chk.expect(ok_model, "R-C09-3", "[%s] the model rows are rebuilt once, from (previous sets, new sets), after the flags are final" % tag, loc(gi),
-                       "update_model_for_isolated_junctions_and_links(model, wn, updater, previous junctions, previous links, new junctions, new links)",
-                       expected="previous %s %s / new %s %s" % (sorted(prev[0]), sorted(prev[1]), sorted(exp_j), sorted(exp_l)), found=found)
-            prev = (exp_j, exp_l)
-            # ---- the scenario itself must exercise isolation and reconnection (guards the harness)
-            ej, el = expected_isolated(wn)
-            if not gf["single"] and not gf["same"] and not gf["opposite"] and not gf["rows"] and not gf["sources"] and not gf["spurious"]:
-                chk.expect(sorted(ej) == sorted(exp_j), rule_g, "[%s] the junctions the search leaves unreached are exactly those without a path of non-closed links to a source" % tag,
-                           loc(gi), expected=sorted(ej), found=sorted(exp_j))
+                raise ExtractError("WNTRSimulator(wn) raises on the mock network: %s (line %s)" % (e, e.lineno))
+            if not isinstance(sim, Instance):
+                raise ExtractError("WNTRSimulator is not a class of %s" % CORE)
+            n2i = name_id_map(sim, wn)
+            i2n = {i: k for k, i in n2i.items()}
+            trackers = [v for v in attr_values(sim) if isinstance(v, MTracker)]
+            if len(trackers) != 1:
+                raise ExtractError("WNTRSimulator: expected exactly one ControlChangeTracker attribute after construction, found %d" % len(trackers))
+            tracker = trackers[0]
+            prev = ([], [])
+            rounds = ROUNDS + (_generated_rounds() if not stale else [])
+            steps = ["initialisation"] + ["update after round %d of status changes%s" % (k + 1, "" if k < len(ROUNDS) else " (%s)" % ", ".join(r_[0] for r_ in rounds[k]))
+                                          for k in range(len(rounds))] + ["rebuild on the used simulator after statuses were changed outside any run"]
+            last = len(steps) - 1
+            for step, what in enumerate(steps):
+                tag = "%s, %s" % (label, what)
+                fails = None
+                rule_g = "R-C09-6" if step == last else "R-C09-1"
+                try:
+                    if step == 0:
+                        where = "_initialize_internal_graph"
+                        it.getattr_(sim, "_initialize_internal_graph")()
+                        for k in ("graph", "model"):
+                            tracker.set_reference_point(k)
+                    elif step == last:
+                        # what run_sim finds when the simulator object is used again (reset_initial_values, an edit while paused): the statuses differ
+                        # from those the graph was left with and no control action told the change tracker
+                        for lk, kind, a_, b_, st, variant in LINKS:
+                            wn.get_link(lk).set_effective(getattr(LS, st), variant)
+                        for lk, st, variant in RESET_EDITS:
+                            wn.get_link(lk).set_effective(getattr(LS, st), variant)
+                        where = "_initialize_internal_graph"
+                        it.getattr_(sim, "_initialize_internal_graph")()
+                        for k in ("graph", "model"):
+                            tracker.reset_reference_point(k)
+                    else:
+                        for lk, st, variant in rounds[step - 1]:
+                            l = wn.get_link(lk)
+                            if st == "toggle":
+                                st = ("Active" if isinstance(l, MValve) else "Open") if l.status == LS.Closed else "Closed"
+                            l.set_effective(getattr(LS, st), variant)
+                            tracker.record(l, "status")
+                        for nm, attr in OTHER_CHANGES:
+                            tracker.record(wn.get_link(nm) if nm in wn.links else wn.get_node(nm), attr)
+                        tracker.used, tracker.resets = [], []
+                        where = "_update_internal_graph"
+                        it.getattr_(sim, "_update_internal_graph")()
+                        used_keys.update(tracker.used)
+                        pending = [k for k in tracker.used if tracker._pending(k)]
+                        chk.expect(not pending and (not tracker.used or set(tracker.used) <= set(tracker.resets)), "R-C09-1",
+                                   "[%s] the update consumes the changes since its reference point and resets that reference point" % tag, loc(ug),
+                                   "a reference point that is not reset makes every later update re-apply old changes and lets update_model/ controls see stale ones",
+                                   expected="every reference point read is reset", found="read %s, reset %s, still pending %s" % (tracker.used, tracker.resets, pending))
+                    ncalls = len(cap.calls)
+                    nmodel = len(model_calls)
+                    where = "_get_isolated_junctions_and_links"
+                    it.getattr_(sim, "_get_isolated_junctions_and_links")()
+                except ProgramError as e:
+                    fails = "%s raises %s at line %s" % (where, e, e.lineno)
+                rule = "R-C09-3" if where == "_get_isolated_junctions_and_links" and fails else rule_g
+                if fails:
+                    chk.bad(rule, "[%s] %s runs on the scenario network" % (tag, where), loc(meths[where]) if where in meths else CORE,
+                            "the scenario has parallel links in both orientations, closed links, pumps, valves, an unlinked junction as last node, and changes of "
+                            "attributes other than the status of links in the change tracker", found=fails)
+                    return
+                # ---- the arrays handed to the search
+                new = cap.calls[ncalls:]
+                chk.expect(len(new) == 1, "R-C09-2", "[%s] the search is invoked once per call of _get_isolated_junctions_and_links" % tag, loc(gi), found=len(new))
+                if len(new) != 1:
+                    return
+                rec = new[0]
+                chk.expect(rec["valid"] is None, "R-C09-2",
+                           "[%s] the Python caller passes sources, indicator, indptr, indices, data, num_connections in the order of the C signature" % tag, loc(gi),
+                           "the arrays are bound positionally to %s" % arrays, found=rec["valid"])
+                if rec["valid"] is not None:
+                    return
+                snap = rec["snap"]
+                chk.expect(snap["node_indicator"] == [1] * len(n2i), "R-C09-2", "[%s] every node starts as not reached (indicator 1, one entry per node)" % tag, loc(gi),
+                           found=snap["node_indicator"])
+                captured.append(snap)
+                gf = graph_facts(wn, n2i, snap)
+                texts = [("single", "a node pair joined by one link (pipe, pump or valve) is connected, in both directions, iff that link's status is not Closed"),
+                         ("same", "a node pair joined by several links drawn the same way is connected iff any of them is not Closed"),
+                         ("opposite", "a node pair joined by links drawn in opposite directions is connected iff any of them is not Closed"),
+                         ("rows", "the graph has one row per node and num_connections holds the row lengths"),
+                         ("sources", "the sources of the search are all tanks and all reservoirs"),
+                         ("spurious", "only node pairs joined by a link are connected")]
+                for cat, text in texts:
+                    chk.expect(not gf[cat], rule_g, "[%s] %s" % (tag, text), loc(ig if step in (0, last) else ug),
+                               "the search follows an entry iff it is 1: a non-closed link must give 1 whatever else is true of it (stale _is_isolated flag, initial_status, "
+                               "_user_status/_internal_status representation), a closed one 0 unless a parallel link is open", found="; ".join(gf[cat][:4]) or None)
+                # ---- flag life cycle, judged against the indicator the search left behind
+                iso_ids = [i for i, v in enumerate(rec["after"]) if v == 1]
+                exp_j = [i2n[i] for i in iso_ids]
+                exp_l = [k for k, l in wn.links.items() if l.start_node_name in exp_j or l.end_node_name in exp_j]
+                fj = [k for k, v in wn.nodes.items() if v._is_isolated]
+                fl = [k for k, v in wn.links.items() if v._is_isolated]
+                if not stale:
+                    chk.expect(not (set(fj) - set(exp_j)) and not (set(fl) - set(exp_l)), "R-C09-3",
+                               "[%s] every flag set by the previous search (junctions and links) is cleared when the element is reachable again" % tag, loc(gi),
+                               found="still flagged: %s %s" % (sorted(set(fj) - set(exp_j)), sorted(set(fl) - set(exp_l))))
+                chk.expect(set(exp_j) <= set(fj), "R-C09-3", "[%s] every node whose indicator is still 1 after the search is flagged isolated" % tag, loc(gi),
+                           found="not flagged: %s" % sorted(set(exp_j) - set(fj)))
+                chk.expect(set(exp_l) <= set(fl), "R-C09-3", "[%s] every link attached to an isolated junction (inlet or outlet) is flagged isolated" % tag, loc(gi),
+                           found="not flagged: %s" % sorted(set(exp_l) - set(fl)))
+                mc = model_calls[nmodel:]
+                ok_model = len(mc) == 1
+                found = "%d calls" % len(mc)
+                if ok_model:
+                    a = mc[0][0]
+                    last4 = [sorted(x) if isinstance(x, (OrderedSet, set, list, tuple, frozenset)) else x for x in a[-4:]]
+                    want4 = [sorted(prev[0]), sorted(prev[1]), sorted(exp_j), sorted(exp_l)]
+                    flags_final = (not stale and sorted(k for k, v in mc[0][1].items() if v) == sorted(exp_j) and sorted(k for k, v in mc[0][2].items() if v) == sorted(exp_l)) or \
+                        (stale and set(exp_j) <= {k for k, v in mc[0][1].items() if v} and set(exp_l) <= {k for k, v in mc[0][2].items() if v})
+                    ok_model = last4 == want4 and flags_final and any(x is wn for x in a[:-4])
+                    found = "sets %s; flags final at the call: %s" % (last4, flags_final)
+                chk.expect(ok_model, "R-C09-3", "[%s] the model rows are rebuilt once, from (previous sets, new sets), after the flags are final" % tag, loc(gi),
+                           "update_model_for_isolated_junctions_and_links(model, wn, updater, previous junctions, previous links, new junctions, new links)",
+                           expected="previous %s %s / new %s %s" % (sorted(prev[0]), sorted(prev[1]), sorted(exp_j), sorted(exp_l)), found=found)
+                prev = (exp_j, exp_l)
+                # ---- the scenario itself must exercise isolation and reconnection (guards the harness)
+                ej, el = expected_isolated(wn)
+                if not gf["single"] and not gf["same"] and not gf["opposite"] and not gf["rows"] and not gf["sources"] and not gf["spurious"]:
+                    chk.expect(sorted(ej) == sorted(exp_j), rule_g, "[%s] the junctions the search leaves unreached are exactly those without a path of non-closed links to a source" % tag,
+                               loc(gi), expected=sorted(ej), found=sorted(exp_j))
 
-    scenario("network with stale flags", True, True)
-    scenario("clean network", False, False)
-    # the reference point read by the update is one that run_sim sets
-    set_keys = {const(c.args[0]) if c.args else (const(c.keywords[0].value) if c.keywords else None) for m_ in meths.values() for c in calls(m_) if last_attr(c) == "set_reference_point"}
-    chk.expect(bool(used_keys) and used_keys <= set_keys, "R-C09-1", "the graph update reads a change-tracker reference point that the simulator sets before the first step", loc(ug),
-               expected="one of %s" % sorted(str(k) for k in set_keys), found=sorted(str(k) for k in used_keys))
+        scenario("network with stale flags", True, True)
+        scenario("clean network", False, False)
+        # the reference point read by the update is one that run_sim sets
+        set_keys = {const(c.args[0]) if c.args else (const(c.keywords[0].value) if c.keywords else None) for m_ in meths.values() for c in calls(m_) if last_attr(c) == "set_reference_point"}
+        chk.expect(bool(used_keys) and used_keys <= set_keys, "R-C09-1", "the graph update reads a change-tracker reference point that the simulator sets before the first step", loc(ug),
+                   expected="one of %s" % sorted(str(k) for k in set_keys), found=sorted(str(k) for k in used_keys))
 
-    # run_sim: graph refreshed before each isolation search, search before each solve (CFG facts)
-    g = CFG(rs)
-    heads = [h for n, h in g.loop_heads.items() if isinstance(n, ast.While)]
-    if len(heads) != 1:
-        raise AnchorError("run_sim: expected exactly one while loop")
-    head = heads[0]
-    upds = g.calling("_update_internal_graph")
-    isos = g.calling("_get_isolated_junctions_and_links")
-    solves = g.calling("_solver_helper")
-    okd, w = g.must_pass(head, isos, upds, drop_back=True)
-    chk.expect(bool(upds) and bool(isos) and okd, "R-C09-1", "run_sim refreshes the internal graph before every isolation search", loc(rs),
-               found=("path: " + g.path_text(w)) if w else None)
-    oks, w = g.must_pass(head, solves[:1], isos, drop_back=True)
-    chk.expect(bool(solves) and oks, "R-C09-1", "run_sim searches for isolated junctions before every solve", loc(rs), found=("path: " + g.path_text(w)) if w else None)
-    post = g.calling("_run_postsolve_controls")
-    conts = g.nodes_where(lambda node, d: isinstance(node, ast.Continue))
-    chk.expect(bool(post) and bool(conts), "R-C09-1", "re-solve path exists (post-solve controls, continue)", loc(rs))
-    chk.floor("R-C09-1", 12)
+        # run_sim: graph refreshed before each isolation search, search before each solve (CFG facts)
+        g = CFG(rs)
+        heads = [h for n, h in g.loop_heads.items() if isinstance(n, ast.While)]
+        if len(heads) != 1:
+            raise AnchorError("run_sim: expected exactly one while loop")
+        head = heads[0]
+        upds = g.calling("_update_internal_graph")
+        isos = g.calling("_get_isolated_junctions_and_links")
+        solves = g.calling("_solver_helper")
+        okd, w = g.must_pass(head, isos, upds, drop_back=True)
+        chk.expect(bool(upds) and bool(isos) and okd, "R-C09-1", "run_sim refreshes the internal graph before every isolation search", loc(rs),
+                   found=("path: " + g.path_text(w)) if w else None)
+        oks, w = g.must_pass(head, solves[:1], isos, drop_back=True)
+        chk.expect(bool(solves) and oks, "R-C09-1", "run_sim searches for isolated junctions before every solve", loc(rs), found=("path: " + g.path_text(w)) if w else None)
+        post = g.calling("_run_postsolve_controls")
+        conts = g.nodes_where(lambda node, d: isinstance(node, ast.Continue))
+        chk.expect(bool(post) and bool(conts), "R-C09-1", "re-solve path exists (post-solve controls, continue)", loc(rs))
+        chk.floor("R-C09-1", 12)
 
     # ---------------------------------------------------------------- R-C09-6 every run_sim call searches a graph that reflects the CURRENT statuses
-    # (T1, CFG must-pass.)  The update only applies what the change tracker saw since the reference point that run_sim itself sets; statuses changed
-    # between two runs on the same simulator object (reset_initial_values, an edit while paused) are invisible to it.  So on EVERY path from the entry of
-    # run_sim to the first update / search the graph must be rebuilt in full from the current statuses, and the reference point the update reads must be
-    # set after that rebuild.  (That a rebuild on a used simulator really reflects the current statuses is the T3 step 4 of the scenarios above.)
-    _always = {}
+    with chk.part("R-C09-6 every run_sim call searches a graph that reflects the CURRENT statuses"):
+        # (T1, CFG must-pass.)  The update only applies what the change tracker saw since the reference point that run_sim itself sets; statuses changed
+        # between two runs on the same simulator object (reset_initial_values, an edit while paused) are invisible to it.  So on EVERY path from the entry of
+        # run_sim to the first update / search the graph must be rebuilt in full from the current statuses, and the reference point the update reads must be
+        # set after that rebuild.  (That a rebuild on a used simulator really reflects the current statuses is the T3 step 4 of the scenarios above.)
+        _always = {}
 
-    def always_rebuilds(name, depth=0):
-        """does every path through method `name` to its normal exit call _initialize_internal_graph (directly or through such a method)?"""
-        if name == "_initialize_internal_graph":
-            return True
-        if name in _always:
+        def always_rebuilds(name, depth=0):
+            """does every path through method `name` to its normal exit call _initialize_internal_graph (directly or through such a method)?"""
+            if name == "_initialize_internal_graph":
+                return True
+            if name in _always:
+                return _always[name]
+            _always[name] = False          # recursion guard
+            fn = meths.get(name)
+            if fn is None or depth > 4 or name == "run_sim":
+                return False
+            cg = CFG(fn)
+            via = rebuild_nodes(cg, depth + 1)
+            ok, _w = cg.must_pass(cg.entry, [cg.exit], via)
+            _always[name] = bool(via) and ok
             return _always[name]
-        _always[name] = False          # recursion guard
-        fn = meths.get(name)
-        if fn is None or depth > 4 or name == "run_sim":
-            return False
-        cg = CFG(fn)
-        via = rebuild_nodes(cg, depth + 1)
-        ok, _w = cg.must_pass(cg.entry, [cg.exit], via)
-        _always[name] = bool(via) and ok
-        return _always[name]
 
-    def rebuild_nodes(cg, depth=0):
-        def pred(node, d):
+        def rebuild_nodes(cg, depth=0):
+            def pred(node, d):
+                for c in walk(node):
+                    if isinstance(c, ast.Call) and isinstance(c.func, ast.Attribute) and isinstance(c.func.value, ast.Name) and c.func.value.id in ("self", "cls", sim_cls.name) \
+                            and c.func.attr in meths and always_rebuilds(c.func.attr, depth):
+                        return True
+                return False
+            return cg.nodes_where(pred)
+        rebuilds = rebuild_nodes(g)
+        consumers = sorted(set(upds) | set(isos))
+
+        def sets_key(node, d):
             for c in walk(node):
-                if isinstance(c, ast.Call) and isinstance(c.func, ast.Attribute) and isinstance(c.func.value, ast.Name) and c.func.value.id in ("self", "cls", sim_cls.name) \
-                        and c.func.attr in meths and always_rebuilds(c.func.attr, depth):
-                    return True
+                if isinstance(c, ast.Call) and last_attr(c) == "set_reference_point":
+                    k = const(c.args[0]) if c.args else (const(c.keywords[0].value) if c.keywords else None)
+                    if k in used_keys:
+                        return True
             return False
-        return cg.nodes_where(pred)
-    rebuilds = rebuild_nodes(g)
-    consumers = sorted(set(upds) | set(isos))
-
-    def sets_key(node, d):
-        for c in walk(node):
-            if isinstance(c, ast.Call) and last_attr(c) == "set_reference_point":
-                k = const(c.args[0]) if c.args else (const(c.keywords[0].value) if c.keywords else None)
-                if k in used_keys:
-                    return True
-        return False
-    setrefs = g.nodes_where(sets_key)
-    ok6, w = g.must_pass(g.entry, consumers, rebuilds)
-    chk.expect(bool(rebuilds) and bool(consumers) and ok6, "R-C09-6", "every call of run_sim rebuilds the connectivity graph from the current statuses before its first update / isolation search",
-               loc(rs), "the graph update only applies the status changes the change tracker saw since run_sim set its reference point: a graph kept from an earlier run on the same "
-               "simulator object (reset_initial_values, an edit while paused) keeps stale 0/1 entries, a connected junction is zeroed or a cut-off one is solved",
-               expected="_initialize_internal_graph on every path from the entry to the first _update_internal_graph / _get_isolated_junctions_and_links",
-               found=("path without a rebuild: " + g.path_text(w)) if w else ("no rebuild call in run_sim" if not rebuilds else None))
-    ok6b, w = g.must_pass(g.entry, consumers, setrefs)
-    chk.expect(bool(setrefs) and ok6b, "R-C09-6", "every call of run_sim sets the reference point the graph update reads before its first update", loc(rs),
-               found=("path: " + g.path_text(w)) if w else "set_reference_point(%s) not found in run_sim" % sorted(str(k) for k in used_keys))
-    ok6c, w = g.must_pass(g.entry, setrefs, rebuilds)
-    chk.expect(bool(setrefs) and bool(rebuilds) and ok6c, "R-C09-6", "the reference point the graph update reads is set after the rebuild (the rebuilt graph and the reference statuses are the same state)",
-               loc(rs), found=("path: " + g.path_text(w)) if w else None)
-    chk.floor("R-C09-6", 3 + 12)
+        setrefs = g.nodes_where(sets_key)
+        ok6, w = g.must_pass(g.entry, consumers, rebuilds)
+        chk.expect(bool(rebuilds) and bool(consumers) and ok6, "R-C09-6", "every call of run_sim rebuilds the connectivity graph from the current statuses before its first update / isolation search",
+                   loc(rs), "the graph update only applies the status changes the change tracker saw since run_sim set its reference point: a graph kept from an earlier run on the same "
+                   "simulator object (reset_initial_values, an edit while paused) keeps stale 0/1 entries, a connected junction is zeroed or a cut-off one is solved",
+                   expected="_initialize_internal_graph on every path from the entry to the first _update_internal_graph / _get_isolated_junctions_and_links",
+                   found=("path without a rebuild: " + g.path_text(w)) if w else ("no rebuild call in run_sim" if not rebuilds else None))
+        ok6b, w = g.must_pass(g.entry, consumers, setrefs)
+        chk.expect(bool(setrefs) and ok6b, "R-C09-6", "every call of run_sim sets the reference point the graph update reads before its first update", loc(rs),
+                   found=("path: " + g.path_text(w)) if w else "set_reference_point(%s) not found in run_sim" % sorted(str(k) for k in used_keys))
+        ok6c, w = g.must_pass(g.entry, setrefs, rebuilds)
+        chk.expect(bool(setrefs) and bool(rebuilds) and ok6c, "R-C09-6", "the reference point the graph update reads is set after the rebuild (the rebuilt graph and the reference statuses are the same state)",
+                   loc(rs), found=("path: " + g.path_text(w)) if w else None)
+        chk.floor("R-C09-6", 3 + 12)
 
     # ---------------------------------------------------------------- R-C09-2 the C++ search against an independent search
-    ci = CInterp(repo.source(CPP))
-    if not ci.has("check_for_isolated_junctions"):
-        raise AnchorError("C++ function check_for_isolated_junctions not found")
+    with chk.part("R-C09-2 the C++ search against an independent search"):
+        ci = CInterp(repo.source(CPP))
+        if not ci.has("check_for_isolated_junctions"):
+            raise AnchorError("C++ function check_for_isolated_junctions not found")
 
-    def c_search(g_):
-        vals = dict(g_)
-        ind = [1] * g_["n"]
-        vals["node_indicator"] = ind
-        args = []
-        cur = None
-        for nm, is_ptr in sig:
-            if is_ptr:
-                cur = list(vals[nm]) if nm != "node_indicator" else ind
-                args.append(cur)
-            else:
-                args.append(len(cur))
-        ci.call("check_for_isolated_junctions", args)
-        return ind
+        def c_search(g_):
+            vals = dict(g_)
+            ind = [1] * g_["n"]
+            vals["node_indicator"] = ind
+            args = []
+            cur = None
+            for nm, is_ptr in sig:
+                if is_ptr:
+                    cur = list(vals[nm]) if nm != "node_indicator" else ind
+                    args.append(cur)
+                else:
+                    args.append(len(cur))
+            ci.call("check_for_isolated_junctions", args)
+            return ind
 
-    def csr(n, edges):
-        """edges: (a, b, value) directed entries -> indptr, indices, data, num_connections"""
-        rows = [[] for _ in range(n)]
-        for a, b, v in edges:
-            rows[a].append((b, v))
-        ip, ix, dt = [0], [], []
-        for r in rows:
-            for b, v in sorted(r):
-                ix.append(b)
-                dt.append(v)
-            ip.append(len(ix))
-        return {"n": n, "indptr": ip, "indices": ix, "data": dt, "num_connections": [len(r) for r in rows]}
+        def csr(n, edges):
+            """edges: (a, b, value) directed entries -> indptr, indices, data, num_connections"""
+            rows = [[] for _ in range(n)]
+            for a, b, v in edges:
+                rows[a].append((b, v))
+            ip, ix, dt = [0], [], []
+            for r in rows:
+                for b, v in sorted(r):
+                    ix.append(b)
+                    dt.append(v)
+                ip.append(len(ix))
+            return {"n": n, "indptr": ip, "indices": ix, "data": dt, "num_connections": [len(r) for r in rows]}
 
-    def sym(pairs):
-        return [(a, b, v) for a, b, v in pairs] + [(b, a, v) for a, b, v in pairs]
-    rnd = random.Random(909)
-    fam = collections.OrderedDict()
-    fam["the graphs the simulator built for the scenario network (closed and parallel links, an unlinked last node)"] = [
-        dict(n=len(s["node_indicator"]), sources=s["sources"], indptr=s["indptr"], indices=s["indices"], data=s["data"], num_connections=s["num_connections"]) for s in captured]
-    chains = []
-    for n in (1, 2, 5, 9):
-        for cut in range(-1, n - 1):
-            e = sym([(i, i + 1, 0 if i == cut else 1) for i in range(n - 1)])
-            for src in sorted({0, n // 2, n - 1}):
-                chains.append(dict(csr(n, e), sources=[src]))
-    fam["chains with one closed link, searched from an end and from the middle"] = chains
-    cyc = []
-    for n in (3, 6):
-        for c1 in range(n):
-            for c2 in range(c1, n):
-                e = sym([(i, (i + 1) % n, 0 if i in (c1, c2) else 1) for i in range(n)])
-                cyc.append(dict(csr(n, e), sources=[0]))
-    fam["rings with one or two closed links"] = cyc
-    rg = []
-    for _ in range(60):
-        n = rnd.randint(1, 12)
-        pairs = {(a, b) for a in range(n) for b in range(a + 1, n) if rnd.random() < 0.25}
-        e = sym([(a, b, rnd.choice((0, 1, 1))) for a, b in sorted(pairs)])
-        rg.append(dict(csr(n, e), sources=sorted(rnd.sample(range(n), rnd.randint(1, min(3, n))))))
-    fam["random graphs with open (1) and closed (0) entries"] = rg
-    fam["nodes without links: as a source, in the middle, as the last node"] = [
-        dict(csr(4, sym([(1, 2, 1)])), sources=[0]), dict(csr(4, sym([(0, 1, 1)])), sources=[0]), dict(csr(5, sym([(0, 1, 1), (3, 4, 1)])), sources=[3, 2]),
-        dict(csr(3, []), sources=[1])]
-    fam["several sources: unsorted, repeated, one reachable from another"] = [
-        dict(csr(6, sym([(0, 1, 1), (1, 2, 1), (3, 4, 1), (4, 5, 0)])), sources=[3, 0, 3, 2]), dict(csr(6, sym([(0, 1, 1), (1, 2, 0), (2, 3, 1), (4, 5, 1)])), sources=[5, 2, 0]),
-        dict(csr(4, sym([(0, 1, 1), (1, 2, 1), (2, 3, 1)])), sources=[3, 0])]
-    fam["no source at all: every node stays unreached"] = [dict(csr(4, sym([(0, 1, 1), (2, 3, 1)])), sources=[]), dict(csr(1, []), sources=[])]
-    fam["entries that differ by direction: an entry is followed only from its own row"] = [
-        dict(csr(4, [(0, 1, 1), (1, 0, 0), (1, 2, 0), (2, 1, 1), (2, 3, 1), (3, 2, 1)]), sources=[0]), dict(csr(3, [(0, 1, 0), (1, 0, 1), (1, 2, 1), (2, 1, 1)]), sources=[0]),
-        dict(csr(3, [(0, 1, 0), (1, 0, 1), (1, 2, 1), (2, 1, 1)]), sources=[2])]
-    for name, graphs in fam.items():
-        bad = None
-        for g_ in graphs:
-            want = reach(g_["sources"], g_["indptr"], g_["indices"], g_["data"], g_["num_connections"], g_["n"])
-            try:
-                got = c_search(g_)
-            except CProgramError as e:
-                got = "fails: %s" % e
-            if got != want:
-                bad = "graph indptr=%s indices=%s data=%s sources=%s: indicator %s, independent search %s" % (g_["indptr"], g_["indices"], g_["data"], g_["sources"], got, want)
-                break
-        chk.expect(bool(graphs) and bad is None, "R-C09-2", "check_for_isolated_junctions marks exactly the nodes reachable from the sources through entries equal to 1 on: " + name, CPP,
-                   "evaluated on %d graphs" % len(graphs), found=bad or ("no graph available" if not graphs else None))
-    chk.floor("R-C09-2", 8)
+        def sym(pairs):
+            return [(a, b, v) for a, b, v in pairs] + [(b, a, v) for a, b, v in pairs]
+        rnd = random.Random(909)
+        fam = collections.OrderedDict()
+        fam["the graphs the simulator built for the scenario network (closed and parallel links, an unlinked last node)"] = [
+            dict(n=len(s["node_indicator"]), sources=s["sources"], indptr=s["indptr"], indices=s["indices"], data=s["data"], num_connections=s["num_connections"]) for s in captured]
+        chains = []
+        for n in (1, 2, 5, 9):
+            for cut in range(-1, n - 1):
+                e = sym([(i, i + 1, 0 if i == cut else 1) for i in range(n - 1)])
+                for src in sorted({0, n // 2, n - 1}):
+                    chains.append(dict(csr(n, e), sources=[src]))
+        fam["chains with one closed link, searched from an end and from the middle"] = chains
+        cyc = []
+        for n in (3, 6):
+            for c1 in range(n):
+                for c2 in range(c1, n):
+                    e = sym([(i, (i + 1) % n, 0 if i in (c1, c2) else 1) for i in range(n)])
+                    cyc.append(dict(csr(n, e), sources=[0]))
+        fam["rings with one or two closed links"] = cyc
+        rg = []
+        for _ in range(60):
+            n = rnd.randint(1, 12)
+            pairs = {(a, b) for a in range(n) for b in range(a + 1, n) if rnd.random() < 0.25}
+            e = sym([(a, b, rnd.choice((0, 1, 1))) for a, b in sorted(pairs)])
+            rg.append(dict(csr(n, e), sources=sorted(rnd.sample(range(n), rnd.randint(1, min(3, n))))))
+        fam["random graphs with open (1) and closed (0) entries"] = rg
+        fam["nodes without links: as a source, in the middle, as the last node"] = [
+            dict(csr(4, sym([(1, 2, 1)])), sources=[0]), dict(csr(4, sym([(0, 1, 1)])), sources=[0]), dict(csr(5, sym([(0, 1, 1), (3, 4, 1)])), sources=[3, 2]),
+            dict(csr(3, []), sources=[1])]
+        fam["several sources: unsorted, repeated, one reachable from another"] = [
+            dict(csr(6, sym([(0, 1, 1), (1, 2, 1), (3, 4, 1), (4, 5, 0)])), sources=[3, 0, 3, 2]), dict(csr(6, sym([(0, 1, 1), (1, 2, 0), (2, 3, 1), (4, 5, 1)])), sources=[5, 2, 0]),
+            dict(csr(4, sym([(0, 1, 1), (1, 2, 1), (2, 3, 1)])), sources=[3, 0])]
+        fam["no source at all: every node stays unreached"] = [dict(csr(4, sym([(0, 1, 1), (2, 3, 1)])), sources=[]), dict(csr(1, []), sources=[])]
+        fam["entries that differ by direction: an entry is followed only from its own row"] = [
+            dict(csr(4, [(0, 1, 1), (1, 0, 0), (1, 2, 0), (2, 1, 1), (2, 3, 1), (3, 2, 1)]), sources=[0]), dict(csr(3, [(0, 1, 0), (1, 0, 1), (1, 2, 1), (2, 1, 1)]), sources=[0]),
+            dict(csr(3, [(0, 1, 0), (1, 0, 1), (1, 2, 1), (2, 1, 1)]), sources=[2])]
+        for name, graphs in fam.items():
+            bad = None
+            for g_ in graphs:
+                want = reach(g_["sources"], g_["indptr"], g_["indices"], g_["data"], g_["num_connections"], g_["n"])
+                try:
+                    got = c_search(g_)
+                except CProgramError as e:
+                    got = "fails: %s" % e
+                if got != want:
+                    bad = "graph indptr=%s indices=%s data=%s sources=%s: indicator %s, independent search %s" % (g_["indptr"], g_["indices"], g_["data"], g_["sources"], got, want)
+                    break
+            chk.expect(bool(graphs) and bad is None, "R-C09-2", "check_for_isolated_junctions marks exactly the nodes reachable from the sources through entries equal to 1 on: " + name, CPP,
+                       "evaluated on %d graphs" % len(graphs), found=bad or ("no graph available" if not graphs else None))
+        chk.floor("R-C09-2", 8)
 
     # ---------------------------------------------------------------- R-C09-3 model update for the symmetric difference
-    wn = MockWN(LS, NODES, LINKS)
-    world, _ = make_world(repo, LS)
-    fn_u = world.function(HYD, "update_model_for_isolated_junctions_and_links")
-    combos = [((["J2", "J3"], ["P2", "P3"]), (["J3", "J6"], ["P3", "P7", "P8"])), (([], []), (["J1"], ["P1", "P2"])), ((["J1", "JL"], ["P1"]), ([], [])),
-              ((["J5"], ["V1", "P6"]), (["J5"], ["V1", "P6"]))]
-    for mk, mkname in ((OrderedSet, "OrderedSet"), (set, "set")):
-        bad = None
-        for (pj, pl), (nj, nl) in combos:
-            up = MUpdater()
-            mm = MModel()
-            try:
-                fn_u(mm, wn, up, mk(pj), mk(pl), mk(nj), mk(nl))
-            except ProgramError as e:
-                bad = "raises %s (line %s) for previous %s %s / new %s %s" % (e, e.lineno, pj, pl, nj, nl)
-                break
-            want = {(wn.get_node(k), "_is_isolated") for k in set(pj) ^ set(nj)} | {(wn.get_link(k), "_is_isolated") for k in set(pl) ^ set(nl)}
-            got = {(o, a) for m_, w_, o, a in up.updates}
-            if got != want or any(m_ is not mm or w_ is not wn for m_, w_, o, a in up.updates):
-                bad = "previous %s %s / new %s %s: updated %s, expected %s" % (pj, pl, nj, nl, sorted((o.name, a) for o, a in got), sorted((o.name, a) for o, a in want))
-                break
-        chk.expect(bad is None, "R-C09-3", "update_model_for_isolated_junctions_and_links rebuilds, through the updater entries registered for '_is_isolated', exactly the rows of the "
-                   "symmetric difference (newly isolated and reconnected junctions and links) [sets given as %s]" % mkname, loc(uf), found=bad)
-    chk.floor("R-C09-3", 8)
+    with chk.part("R-C09-3 model update for the symmetric difference"):
+        wn = MockWN(LS, NODES, LINKS)
+        world, _ = make_world(repo, LS)
+        fn_u = world.function(HYD, "update_model_for_isolated_junctions_and_links")
+        combos = [((["J2", "J3"], ["P2", "P3"]), (["J3", "J6"], ["P3", "P7", "P8"])), (([], []), (["J1"], ["P1", "P2"])), ((["J1", "JL"], ["P1"]), ([], [])),
+                  ((["J5"], ["V1", "P6"]), (["J5"], ["V1", "P6"]))]
+        for mk, mkname in ((OrderedSet, "OrderedSet"), (set, "set")):
+            bad = None
+            for (pj, pl), (nj, nl) in combos:
+                up = MUpdater()
+                mm = MModel()
+                try:
+                    fn_u(mm, wn, up, mk(pj), mk(pl), mk(nj), mk(nl))
+                except ProgramError as e:
+                    bad = "raises %s (line %s) for previous %s %s / new %s %s" % (e, e.lineno, pj, pl, nj, nl)
+                    break
+                want = {(wn.get_node(k), "_is_isolated") for k in set(pj) ^ set(nj)} | {(wn.get_link(k), "_is_isolated") for k in set(pl) ^ set(nl)}
+                got = {(o, a) for m_, w_, o, a in up.updates}
+                if got != want or any(m_ is not mm or w_ is not wn for m_, w_, o, a in up.updates):
+                    bad = "previous %s %s / new %s %s: updated %s, expected %s" % (pj, pl, nj, nl, sorted((o.name, a) for o, a in got), sorted((o.name, a) for o, a in want))
+                    break
+            chk.expect(bad is None, "R-C09-3", "update_model_for_isolated_junctions_and_links rebuilds, through the updater entries registered for '_is_isolated', exactly the rows of the "
+                       "symmetric difference (newly isolated and reconnected junctions and links) [sets given as %s]" % mkname, loc(uf), found=bad)
+        chk.floor("R-C09-3", 8)
 
     # ---------------------------------------------------------------- R-C09-4 zeroing of the results
-    sfn = repo.func(HYD, "store_results_in_network")
-    svf = repo.func(HYD, "save_results")
-    chk.fn(sfn, svf)
-    world, _ = make_world(repo, LS)
-    fn_s = world.function(HYD, "store_results_in_network")
-    fn_v = world.function(HYD, "save_results")
-    res = collections.OrderedDict()      # fact -> first counterexample
-    facts = ["an isolated junction reports demand = 0 in every demand mode and leak state", "an isolated junction reports pressure = 0 in every demand mode and leak state",
-             "an isolated junction reports leak_demand = 0 in every demand mode and leak state",
-             "an isolated junction is stored with the head of zero pressure (its elevation)", "an isolated link reports flow 0",
-             "a connected junction reports the solved head (never zeroed)", "a connected link reports the solved flow (never zeroed)",
-             "save_results reports pressure 0, demand 0 and leak 0 for an isolated junction and flow 0 for an isolated link"]
-    for f in facts:
-        res[f] = None
+    with chk.part("R-C09-4 zeroing of the results"):
+        sfn = repo.func(HYD, "store_results_in_network")
+        svf = repo.func(HYD, "save_results")
+        chk.fn(sfn, svf)
+        world, _ = make_world(repo, LS)
+        fn_s = world.function(HYD, "store_results_in_network")
+        fn_v = world.function(HYD, "save_results")
+        res = collections.OrderedDict()      # fact -> first counterexample
+        facts = ["an isolated junction reports demand = 0 in every demand mode and leak state", "an isolated junction reports pressure = 0 in every demand mode and leak state",
+                 "an isolated junction reports leak_demand = 0 in every demand mode and leak state",
+                 "an isolated junction is stored with the head of zero pressure (its elevation)", "an isolated link reports flow 0",
+                 "a connected junction reports the solved head (never zeroed)", "a connected link reports the solved flow (never zeroed)",
+                 "save_results reports pressure 0, demand 0 and leak 0 for an isolated junction and flow 0 for an isolated link"]
+        for f in facts:
+            res[f] = None
 
-    def note(f, txt):
-        if res[f] is None:
-            res[f] = txt
-    runs = 0
-    for mode in ("DD", "PDD", "PDA"):
-        for leaky in (False, True):
-            wn = MockWN(LS, NODES, LINKS, demand_model=mode)
-            ej, el = expected_isolated(wn)
-            for k in ej:
-                wn.get_node(k)._is_isolated = True
-            for k in el:
-                wn.get_link(k)._is_isolated = True
-            for k, nd in wn.nodes.items():
-                nd._leak_status = leaky and not isinstance(nd, MReservoir)
-                nd._head, nd._demand, nd._pressure, nd._leak_demand = 777.0, 777.0, 777.0, 777.0     # stale values of an earlier step
-            for k, l in wn.links.items():
-                l._flow = 777.0
-            mm = MModel()
-            ctx = "demand model %s, leak_status %s" % (mode, leaky)
-            try:
-                fn_s(wn, mm)
-            except ProgramError as e:
-                for f in facts[:7]:
-                    note(f, "store_results_in_network raises %s (line %s) [%s]" % (e, e.lineno, ctx))
-                continue
-            runs += 1
-            for k, nd in wn.nodes.items():
-                if not isinstance(nd, MJunction):
+        def note(f, txt):
+            if res[f] is None:
+                res[f] = txt
+        runs = 0
+        for mode in ("DD", "PDD", "PDA"):
+            for leaky in (False, True):
+                wn = MockWN(LS, NODES, LINKS, demand_model=mode)
+                ej, el = expected_isolated(wn)
+                for k in ej:
+                    wn.get_node(k)._is_isolated = True
+                for k in el:
+                    wn.get_link(k)._is_isolated = True
+                for k, nd in wn.nodes.items():
+                    nd._leak_status = leaky and not isinstance(nd, MReservoir)
+                    nd._head, nd._demand, nd._pressure, nd._leak_demand = 777.0, 777.0, 777.0, 777.0     # stale values of an earlier step
+                for k, l in wn.links.items():
+                    l._flow = 777.0
+                mm = MModel()
+                ctx = "demand model %s, leak_status %s" % (mode, leaky)
+                try:
+                    fn_s(wn, mm)
+                except ProgramError as e:
+                    for f in facts[:7]:
+                        note(f, "store_results_in_network raises %s (line %s) [%s]" % (e, e.lineno, ctx))
                     continue
-                if nd._is_isolated:
-                    for f, fld in ((facts[0], "_demand"), (facts[1], "_pressure"), (facts[2], "_leak_demand")):
-                        v = getattr(nd, fld)
-                        if not (isinstance(v, (int, float)) and not isinstance(v, bool) and v == 0):
-                            note(f, "junction %s: %s = %r [%s]" % (k, fld, v, ctx))
-                    if nd._head != nd.elevation:
-                        note(facts[3], "junction %s: _head = %r, elevation %r [%s]" % (k, nd._head, nd.elevation, ctx))
-                elif nd._head != mm.head[k].value:
-                    note(facts[5], "junction %s: _head = %r, solved head %r [%s]" % (k, nd._head, mm.head[k].value, ctx))
-            for k, l in wn.links.items():
-                if l._is_isolated:
-                    if not (isinstance(l._flow, (int, float)) and l._flow == 0):
-                        note(facts[4], "link %s: _flow = %r [%s]" % (k, l._flow, ctx))
-                elif l._flow != mm.flow[k].value:
-                    note(facts[6], "link %s: _flow = %r, solved flow %r [%s]" % (k, l._flow, mm.flow[k].value, ctx))
-            node_res = collections.defaultdict(lambda: collections.defaultdict(list))
-            link_res = collections.defaultdict(lambda: collections.defaultdict(list))
-            try:
-                fn_v(wn, node_res, link_res)
-            except ProgramError as e:
-                note(facts[7], "save_results raises %s (line %s) [%s]" % (e, e.lineno, ctx))
-                continue
-            for k in ej:
-                for key in ("pressure", "demand", "leak_demand"):
-                    v = node_res[key][k]
+                runs += 1
+                for k, nd in wn.nodes.items():
+                    if not isinstance(nd, MJunction):
+                        continue
+                    if nd._is_isolated:
+                        for f, fld in ((facts[0], "_demand"), (facts[1], "_pressure"), (facts[2], "_leak_demand")):
+                            v = getattr(nd, fld)
+                            if not (isinstance(v, (int, float)) and not isinstance(v, bool) and v == 0):
+                                note(f, "junction %s: %s = %r [%s]" % (k, fld, v, ctx))
+                        if nd._head != nd.elevation:
+                            note(facts[3], "junction %s: _head = %r, elevation %r [%s]" % (k, nd._head, nd.elevation, ctx))
+                    elif nd._head != mm.head[k].value:
+                        note(facts[5], "junction %s: _head = %r, solved head %r [%s]" % (k, nd._head, mm.head[k].value, ctx))
+                for k, l in wn.links.items():
+                    if l._is_isolated:
+                        if not (isinstance(l._flow, (int, float)) and l._flow == 0):
+                            note(facts[4], "link %s: _flow = %r [%s]" % (k, l._flow, ctx))
+                    elif l._flow != mm.flow[k].value:
+                        note(facts[6], "link %s: _flow = %r, solved flow %r [%s]" % (k, l._flow, mm.flow[k].value, ctx))
+                node_res = collections.defaultdict(lambda: collections.defaultdict(list))
+                link_res = collections.defaultdict(lambda: collections.defaultdict(list))
+                try:
+                    fn_v(wn, node_res, link_res)
+                except ProgramError as e:
+                    note(facts[7], "save_results raises %s (line %s) [%s]" % (e, e.lineno, ctx))
+                    continue
+                for k in ej:
+                    for key in ("pressure", "demand", "leak_demand"):
+                        v = node_res[key][k]
+                        if len(v) != 1 or v[0] != 0:
+                            note(facts[7], "node['%s'][%s] = %r [%s]" % (key, k, v, ctx))
+                for k in el:
+                    v = link_res["flowrate"][k]
                     if len(v) != 1 or v[0] != 0:
-                        note(facts[7], "node['%s'][%s] = %r [%s]" % (key, k, v, ctx))
-            for k in el:
-                v = link_res["flowrate"][k]
-                if len(v) != 1 or v[0] != 0:
-                    note(facts[7], "link['flowrate'][%s] = %r [%s]" % (k, v, ctx))
-    if not runs:
-        chk.error("R-C09-4: store_results_in_network could not be evaluated in any demand mode")
-    for f, bad in res.items():
-        chk.expect(bad is None, "R-C09-4", f, loc(svf if f.startswith("save_results") else sfn),
-                   "evaluated on the scenario network for the demand models DD / PDD / PDA with and without leaks; a cut-off junction with a constant head (e.g. 0) is read as a real "
-                   "head by _CloseHeadPumpCondition / _OpenCVCondition / the tank controls", found=bad)
+                        note(facts[7], "link['flowrate'][%s] = %r [%s]" % (k, v, ctx))
+        if not runs:
+            chk.error("R-C09-4: store_results_in_network could not be evaluated in any demand mode")
+        for f, bad in res.items():
+            chk.expect(bad is None, "R-C09-4", f, loc(svf if f.startswith("save_results") else sfn),
+                       "evaluated on the scenario network for the demand models DD / PDD / PDA with and without leaks; a cut-off junction with a constant head (e.g. 0) is read as a real "
+                       "head by _CloseHeadPumpCondition / _OpenCVCondition / the tank controls", found=bad)
 
-    # builders: Closed-or-isolated -> q = 0 row; no balance / PDD / leak row for an isolated junction; re-registration on _is_isolated
-    cons = repo.classes(CON)
-    linklaws = sorted(k for k in cons if k.endswith("_headloss_constraint"))
-    for k in linklaws:
-        if not any(isinstance(n, ast.FunctionDef) and n.name == "build" for n in cons[k].body):
-            continue
-        fn, paths, ex = B.run_builder(repo, CON, k + ".build")
-        chk.fn(fn)
-        live = [p for p in paths if not p.st.raised]
-        wrong, n_zero, n_other, unreg = [], 0, 0, []
-        for p in live:
-            rows = [(t, v) for t, v, ln in p.stores("m.") if "[" in t]
-            zero = bool(rows) and all(isinstance(v, SymConstraint) and (getattr(v.expr, "is_Symbol", False) or isinstance(v.expr, Opaque)) and
-                                      re.match(r"^m\.flow\[[^\]]*\]$", v.expr.text if isinstance(v.expr, Opaque) else str(v.expr)) for t, v in rows)
-            iso, closed = forced_atoms(p.conds, _ISO), closed_forced(p.conds)
-            if iso is not False or closed is not False:
-                # this path can be taken by an isolated (or closed) link: it must give the q = 0 row
-                if not zero:
-                    wrong.append("%s -> %s" % (p.label[-140:], [str(v)[:60] for t, v in rows]))
-                else:
-                    n_zero += 1
-            elif not zero:
-                n_other += 1
-            if "_is_isolated" not in p.updater_attrs():
-                unreg.append(p.label[-80:])
-        chk.expect(not wrong and n_zero >= 1 and n_other >= 1 and not unreg and bool(live), "R-C09-4",
-                   "%s: a Closed or isolated link gets the q = 0 row on every path and the builder re-registers on _is_isolated" % k, loc(CON, fn),
-                   "every path whose conditions do not exclude `_is_isolated` (or `status == Closed`) must store Constraint(flow); a path that excludes both builds the head-loss row",
-                   found="paths that may be taken by an isolated/closed link without the q = 0 row: %s; q=0 paths %d, head-loss paths %d; not registered on: %s" % (wrong[:2], n_zero, n_other, unreg[:2]))
-    for k in ("mass_balance_constraint", "pdd_mass_balance_constraint", "pdd_constraint", "leak_constraint"):
-        if k not in cons:
-            raise AnchorError("builder %s vanished" % k)
-        fn, paths, ex = B.run_builder(repo, CON, k + ".build")
-        chk.fn(fn)
-        live = [p for p in paths if not p.st.raised]
-        wrong, n_built, n_skipped, unreg = [], 0, 0, []
-        for p in live:
-            rows = [(t, v) for t, v, ln in p.stores("m.") if "[" in t]
-            iso = forced_atoms(p.conds, _ISO)
-            if iso is not False:
-                if rows:
-                    wrong.append("%s -> %s" % (p.label[-140:], [t for t, v in rows]))
-                else:
-                    n_skipped += 1
-            elif rows:
-                n_built += 1
-            if "_is_isolated" not in p.updater_attrs():
-                unreg.append(p.label[-80:])
-        chk.expect(not wrong and n_built >= 1 and n_skipped >= 1 and not unreg and bool(live), "R-C09-4",
-                   "%s: no row is built for an isolated junction and the builder re-registers on _is_isolated" % k, loc(CON, fn),
-                   found="paths that may be taken by an isolated junction and build a row: %s; building paths %d, skipping paths %d; not registered on: %s" % (wrong[:2], n_built, n_skipped, unreg[:2]))
-    chk.floor("R-C09-4", 8 + 8 + 4)
+        # builders: Closed-or-isolated -> q = 0 row; no balance / PDD / leak row for an isolated junction; re-registration on _is_isolated
+        cons = repo.classes(CON)
+        linklaws = sorted(k for k in cons if k.endswith("_headloss_constraint"))
+        for k in linklaws:
+            if not any(isinstance(n, ast.FunctionDef) and n.name == "build" for n in cons[k].body):
+                continue
+            fn, paths, ex = B.run_builder(repo, CON, k + ".build")
+            chk.fn(fn)
+            live = [p for p in paths if not p.st.raised]
+            wrong, n_zero, n_other, unreg = [], 0, 0, []
+            for p in live:
+                rows = [(t, v) for t, v, ln in p.stores("m.") if "[" in t]
+                zero = bool(rows) and all(isinstance(v, SymConstraint) and (getattr(v.expr, "is_Symbol", False) or isinstance(v.expr, Opaque)) and
+                                          re.match(r"^m\.flow\[[^\]]*\]$", v.expr.text if isinstance(v.expr, Opaque) else str(v.expr)) for t, v in rows)
+                iso, closed = forced_atoms(p.conds, _ISO), closed_forced(p.conds)
+                if iso is not False or closed is not False:
+                    # this path can be taken by an isolated (or closed) link: it must give the q = 0 row
+                    if not zero:
+                        wrong.append("%s -> %s" % (p.label[-140:], [str(v)[:60] for t, v in rows]))
+                    else:
+                        n_zero += 1
+                elif not zero:
+                    n_other += 1
+                if "_is_isolated" not in p.updater_attrs():
+                    unreg.append(p.label[-80:])
+            chk.expect(not wrong and n_zero >= 1 and n_other >= 1 and not unreg and bool(live), "R-C09-4",
+                       "%s: a Closed or isolated link gets the q = 0 row on every path and the builder re-registers on _is_isolated" % k, loc(CON, fn),
+                       "every path whose conditions do not exclude `_is_isolated` (or `status == Closed`) must store Constraint(flow); a path that excludes both builds the head-loss row",
+                       found="paths that may be taken by an isolated/closed link without the q = 0 row: %s; q=0 paths %d, head-loss paths %d; not registered on: %s" % (wrong[:2], n_zero, n_other, unreg[:2]))
+        for k in ("mass_balance_constraint", "pdd_mass_balance_constraint", "pdd_constraint", "leak_constraint"):
+            if k not in cons:
+                raise AnchorError("builder %s vanished" % k)
+            fn, paths, ex = B.run_builder(repo, CON, k + ".build")
+            chk.fn(fn)
+            live = [p for p in paths if not p.st.raised]
+            wrong, n_built, n_skipped, unreg = [], 0, 0, []
+            for p in live:
+                rows = [(t, v) for t, v, ln in p.stores("m.") if "[" in t]
+                iso = forced_atoms(p.conds, _ISO)
+                if iso is not False:
+                    if rows:
+                        wrong.append("%s -> %s" % (p.label[-140:], [t for t, v in rows]))
+                    else:
+                        n_skipped += 1
+                elif rows:
+                    n_built += 1
+                if "_is_isolated" not in p.updater_attrs():
+                    unreg.append(p.label[-80:])
+            chk.expect(not wrong and n_built >= 1 and n_skipped >= 1 and not unreg and bool(live), "R-C09-4",
+                       "%s: no row is built for an isolated junction and the builder re-registers on _is_isolated" % k, loc(CON, fn),
+                       found="paths that may be taken by an isolated junction and build a row: %s; building paths %d, skipping paths %d; not registered on: %s" % (wrong[:2], n_built, n_skipped, unreg[:2]))
+        chk.floor("R-C09-4", 8 + 8 + 4)
 
     # ---------------------------------------------------------------- R-C09-5 a link created closed is closed in the first solve
-    # the graph (and every status rule) reads link.status, which follows _user_status: all three add_* siblings must start it from initial_status
-    # (presence / text match: an Assign to attribute _user_status whose unparsed value, after substituting single-definition locals, contains 'initial_status')
-    MODEL = "wntr/network/model.py"
-    for meth in ("add_pipe", "add_pump", "add_valve"):
-        fn = repo.func(MODEL, "LinkRegistry." + meth)
-        chk.fn(fn)
-        us = [a for a in walk(fn) if isinstance(a, ast.Assign) and isinstance(a.targets[0], ast.Attribute) and a.targets[0].attr == "_user_status"]
+    with chk.part("R-C09-5 a link created closed is closed in the first solve"):
+        # the graph (and every status rule) reads link.status, which follows _user_status: all three add_* siblings must start it from initial_status
+        # (presence / text match: an Assign to attribute _user_status whose unparsed value, after substituting single-definition locals, contains 'initial_status')
+        MODEL = "wntr/network/model.py"
+        for meth in ("add_pipe", "add_pump", "add_valve"):
+            fn = repo.func(MODEL, "LinkRegistry." + meth)
+            chk.fn(fn)
+            us = [a for a in walk(fn) if isinstance(a, ast.Assign) and isinstance(a.targets[0], ast.Attribute) and a.targets[0].attr == "_user_status"]
 
-        def origin(v, depth=0):
-            """text of the value with temporaries replaced by their single reaching assignment"""
-            if isinstance(v, ast.Name) and depth < 4:
-                defs = [a for a in walk(fn) if isinstance(a, ast.Assign) and len(a.targets) == 1 and isinstance(a.targets[0], ast.Name) and a.targets[0].id == v.id]
-                if len(defs) == 1:
-                    return origin(defs[0].value, depth + 1)
-            return unparse(v)
-        okus = bool(us) and all("initial_status" in origin(a.value) for a in us)
-        chk.expect(okus, "R-C09-5", "LinkRegistry.%s starts the link's run-time status from initial_status" % meth, loc(fn),
-                   "the element keeps the constructor default (Opened / Active) until reset_initial_values: a pump or valve created with initial_status='CLOSED' is simulated open and the "
-                   "junctions behind it are served instead of zeroed (add_pipe sets _user_status, its siblings must too)", expected="<link>._user_status = initial_status",
-                   found=[norm(a) for a in us])
-    chk.floor("R-C09-5", 3)
+            def origin(v, depth=0):
+                """text of the value with temporaries replaced by their single reaching assignment"""
+                if isinstance(v, ast.Name) and depth < 4:
+                    defs = [a for a in walk(fn) if isinstance(a, ast.Assign) and len(a.targets) == 1 and isinstance(a.targets[0], ast.Name) and a.targets[0].id == v.id]
+                    if len(defs) == 1:
+                        return origin(defs[0].value, depth + 1)
+                return unparse(v)
+            okus = bool(us) and all("initial_status" in origin(a.value) for a in us)
+            chk.expect(okus, "R-C09-5", "LinkRegistry.%s starts the link's run-time status from initial_status" % meth, loc(fn),
+                       "the element keeps the constructor default (Opened / Active) until reset_initial_values: a pump or valve created with initial_status='CLOSED' is simulated open and the "
+                       "junctions behind it are served instead of zeroed (add_pipe sets _user_status, its siblings must too)", expected="<link>._user_status = initial_status",
+                       found=[norm(a) for a in us])
+        chk.floor("R-C09-5", 3)
 
 
 WITNESSES = [
